@@ -83,6 +83,7 @@ type checkOpts struct {
 	verbose bool
 	timeout int
 	limit   int
+	cfgTimeout int
 }
 
 func runCheck(id string, o checkOpts) int {
@@ -210,7 +211,7 @@ func runCheck(id string, o checkOpts) int {
 							}
 						}
 					}()
-					dl := time.Now().Add(10 * time.Minute)
+					dl := time.Now().Add(time.Duration(o.cfgTimeout) * time.Second)
 					r := in.RunConfig(cfgs[i], maxPaths, dl)
 					if in.solver.dead {
 						in.solver.Close()
